@@ -83,7 +83,7 @@ class TvtbAlgebra(AbstractAlgebra):
         """
         if d < 1:
             return False
-        sub_d = np.sqrt(d)
+        sub_d = int(np.sqrt(d))
         return sub_d * sub_d == d
 
     def _get_sub_d(self, d):
